@@ -145,6 +145,9 @@ def visit_order_rule(crate, prop, rule="C13.R2"):
                 loops_ok = bool(loops) and all(_loop_accumulates_into_sets(body, bb) for bb in loops)
                 ok = bool(fate) and all(x.startswith("collect->std::collections::BTree") or (loops_ok and re.search(r"Iterator>?::next$", x)) for x in fate)
                 r.inst(fn=body.path, source="TS::dependencies()", consumed_by=fate, where="%s:%s" % (f, l), ok=ok)
+                if not fate:
+                    r.fail(prop, "anchor-missing consumer of TS::dependencies() in %s" % body.path, "what consumes the dependency list could not be followed", f, l)
+                    continue
                 if not ok:
                     r.fail(prop, "visit-order-consumed %s" % body.path,
                            "result of TS::dependencies() (visit order, differs between compilations) is consumed by %s instead of being sorted through a BTreeMap/BTreeSet" % fate, f, l)
